@@ -107,6 +107,12 @@ func (r *c03) curObs(res string, c int) string {
 			ups = append(ups, cl.Key())
 		}
 	}
+	if cl := c10sizeClass(len(ups) + 1); cl != "" && cur.Valid() {
+		r.st.Note("cursor-at-depth" + cl)
+	}
+	if cl := c10sizeClass(len(in)); cl != "" {
+		r.st.Note("cursor-over-subtree" + cl)
+	}
 	regs := make([]int, 0, len(r.curs))
 	for k := range r.curs {
 		regs = append(regs, k)
@@ -487,7 +493,139 @@ func c03Perms(n int, f func([]int)) {
 	rec(0)
 }
 
+// genC03Large: cursors on DEEP trees (β = 1000: ascending, descending, zig-zag and "hook" insertion orders give
+// paths of 40 to 140 nodes, thorough to 520 — a cursor at the bottom carries a path of that many ancestors; Up all
+// the way, Next/Prev that walk up ALL the levels (hook: the successor/predecessor of the bottom node is the root), Min/Max that descend all the way, clones taken at depth and moved apart)
+// and on LARGE balanced trees (one bulk New of 1030 keys, thorough 4100: far keys, walks across the root, stopped
+// Inorder), before and after the tree was drained below a quarter and regrown.
+func genC03Large(g *G) {
+	type lc struct {
+		n   int
+		pat string
+	}
+	cs := []lc{{40, "asc"}, {70, "zigzag"}, {100, "hookasc"}, {140, "hookdesc"}, {1030, "bulk"}}
+	if g.Thorough() {
+		cs = append(cs, lc{33, "zigzag"}, lc{65, "asc"}, lc{130, "zigzag"}, lc{260, "hookasc"}, lc{520, "zigzag"}, lc{300, "desc"}, lc{67, "hookdesc"}, lc{520, "hookdesc"}, lc{4100, "bulk"}, lc{260, "bulk"})
+	}
+	for _, c := range cs {
+		N := c.n
+		ops := []string{"reset nat"}
+		add := func(format string, a ...any) { ops = append(ops, fmt.Sprintf(format, a...)) }
+		key := func(i int) int { // the i-th key inserted
+			switch c.pat {
+			case "hookasc": // a large key first, then ascending below it: the successor of the bottom node is the root
+				if i == 0 {
+					return 2 * (N + 5)
+				}
+				return 2 * i
+			case "hookdesc": // mirrored: the predecessor of the bottom node is the root
+				if i == 0 {
+					return 0
+				}
+				return 2 * (N + 5 - i)
+			case "desc":
+				return 2 * (N - i)
+			case "zigzag":
+				if i%2 == 1 {
+					return 2 * (N - i/2)
+				}
+				return 2 * (i / 2)
+			}
+			return 2 * i
+		}
+		script := func(deep, other int) {
+			// deep: the key of a deepest node (the last one inserted); other: a key far from it
+			add("cursor 0 0 %d", deep)
+			add("clone 1 0")
+			add("clone 2 0")
+			add("next 1")
+			add("next 1")
+			add("prev 2")
+			add("prev 2")
+			add("inorder 1 3")
+			add("clone 3 0")
+			for i := 0; i < 4; i++ {
+				add("up 3")
+			}
+			add("left 3")
+			add("clone 3 0")
+			add("up 3")
+			add("right 3")
+			add("root 3 0")
+			add("min 3")
+			add("prev 3")
+			add("root 3 0")
+			add("max 3")
+			add("next 3")
+			add("cursor 3 0 %d", other)
+			add("next 3")
+			add("prev 3")
+			add("prev 3")
+			add("cursor 3 0 %d", deep+1) // absent
+		}
+		if c.pat == "bulk" {
+			perm := g.R.Perm(N)
+			line := fmt.Sprintf("t new 0 %d", []int{0, 250, 999}[g.Intn(3)])
+			for _, i := range perm {
+				line += " " + strconv.Itoa(2*i)
+			}
+			add("%s", line)
+			script(2*(N/2), 2*(N-1))
+			script(0, 2*(N/3))
+			// walk across the tree from the middle in both directions
+			add("cursor 0 0 %d", N)
+			for i := 0; i < 12; i++ {
+				add("next 0")
+			}
+			add("cursor 1 0 %d", N)
+			for i := 0; i < 12; i++ {
+				add("prev 1")
+			}
+			// drain below a quarter (every Remove drops the cursors), look again, regrow
+			for i := 0; i < N-N/5; i++ {
+				if i%40 == 0 && i > 0 {
+					add("cursor 0 0 %d", 2*perm[N-1])
+					add("up 0")
+				}
+				add("t remove 0 %d", 2*perm[i])
+			}
+			script(2*perm[N-1], 2*perm[N-2])
+			for i := 0; i < 40; i++ {
+				add("t add 0 %d", 2*perm[i]+1)
+			}
+			script(2*perm[0]+1, 2*perm[N-3])
+		} else {
+			add("t new 0 1000")
+			for i := 0; i < N; i++ {
+				add("t add 0 %d", key(i))
+			}
+			deep := key(N - 1)
+			script(deep, key(0))
+			// all the way up from the bottom, and one step further
+			add("cursor 0 0 %d", deep)
+			for i := 0; i <= N; i++ {
+				add("up 0")
+			}
+			add("t clone 1 0")
+			// drain below a quarter from the top of the path (the bottom stays deep), look, regrow deeper
+			for i := 0; i < N-N/5; i++ {
+				add("t remove 0 %d", key(i))
+			}
+			script(deep, key(N-2))
+			for i := 0; i < N/2; i++ {
+				add("t add 0 %d", key(i))
+			}
+			script(key(N/2-1), deep)
+			add("cursor 1 1 %d", deep) // the clone of the tree is as deep as before
+			add("up 1")
+			add("min 1")
+		}
+		g.Each(ops)
+	}
+}
+
 func genC03(g *G) {
+	genC03Large(g)
 	// exhaustive small scope: every search-tree shape with up to N keys (β = 1000: the tree
 	// is the plain insertion tree), every key present or absent, every single move from
 	// there, and the full forward and backward walks
